@@ -54,7 +54,7 @@ def sym_kernel(ip, kind, keys=("a", "b"), name="k", **extra):
     c = ip.ctx
     rel, kcls, _ = KERNELS[kind]
     kw = dict(da_target_accept=c.fresh(f"{name}.delta", Real), da_gamma=c.fresh(f"{name}.gamma", Real),
-              da_kappa=c.fresh(f"{name}.kappa", Real), da_t0=c.fresh(f"{name}.t0", Int), initial_step_size=c.fresh(f"{name}.eps0", Real))
+              da_kappa=c.fresh(f"{name}.kappa", Real), da_t0=c.fresh(f"{name}.t0", Real), initial_step_size=c.fresh(f"{name}.eps0", Real))  # (t0: any real offset, as in Stan)
     args = [tuple(keys)]
     if kind == "MH":
         kw["da_tune_step_size"] = extra.pop("da_tune_step_size", True)
